@@ -36,11 +36,11 @@ def verify(mid):
         cmd = meta.get("demo_cmd", "")
         cmd = re.sub(r"/var/tmp/mut/" + mid, wt, cmd)
         cmd = re.sub(r"cd \S+ && ", "", cmd) if ("cd " + wt) not in cmd else cmd
-        # place the demonstration
+        # place the demonstration (the agent's _mutant directory is reproduced as well)
         placed = []
-        if "_mutant/demo" in cmd:
-            shutil.copytree(os.path.join(d, "demo"), os.path.join(wt, "_mutant", "demo"))
-            placed.append("_mutant/demo")
+        shutil.copytree(d, os.path.join(wt, "_mutant"), ignore=shutil.ignore_patterns("result.json", "verified.json"))
+        if "_mutant/" in cmd and "cp _mutant" not in cmd:
+            placed.append("_mutant")
         else:
             m = re.findall(r"(\./(?:internal|cmd)/\S+)", cmd)
             pkg = m[-1].rstrip("/") if m else None
